@@ -1786,3 +1786,23 @@ Theorem trial_meets_target fd oracle ch ch' k c : cache_ok fd ch ->
 Proof.
   intros Hch Hret. destruct (trial_spec fd oracle ch ch' k c Hch Hret) as (_ & _ & C & D & _). split; assumption.
 Qed.
+
+(* ---- the hypotheses of the theorems, as a verified boolean check ---- *)
+Lemma nodup_b_sound l : nodup_b l = true -> NoDup l.
+Proof.
+  induction l as [|x l IH]; cbn; intros H; [constructor|].
+  apply andb_true_iff in H. destruct H as [H1 H2]. constructor; [|apply IH, H2].
+  apply memb_false. destruct (memb x l); [discriminate|reflexivity].
+Qed.
+
+Theorem hyps_b_sound n sl t : hyps_b n sl t = true ->
+  tree_ok n sl t /\ sd_pos (szd n) /\ NoDup (zd_keys (szd n)).
+Proof.
+  unfold hyps_b. intros H. apply andb_true_iff in H. destruct H as [H H4].
+  apply andb_true_iff in H. destruct H as [H H3]. apply andb_true_iff in H. destruct H as [H1 H2].
+  split; [|split].
+  - apply tree_ok_from_root; [apply nodup_b_sound, H1|].
+    intros j Hj. rewrite forallb_forall in H2. apply memb_In, H2, Hj.
+  - intros kv Hkv. rewrite forallb_forall in H3. specialize (H3 kv Hkv). lia.
+  - apply nodup_b_sound, H4.
+Qed.
